@@ -71,6 +71,9 @@ func NewSchema(config SchemaConfig) (Schema, error) {
 	}
 	// Ensure directive definitions are error-free
 	for _, dir := range schema.directives {
+		if err = invariantf(dir != nil, `Schema directives must not contain nil.`); err != nil {
+			return schema, err
+		}
 		if dir.err != nil {
 			return schema, dir.err
 		}
@@ -92,10 +95,12 @@ func NewSchema(config SchemaConfig) (Schema, error) {
 		initialTypes = append(initialTypes, SchemaType)
 	}
 
-	// assume that user will never add a nil object to config
 	initialTypes = append(initialTypes, config.Types...)
 
 	for _, ttype := range initialTypes {
+		if err = invariantf(!isNullish(ttype), `Schema types must not contain nil.`); err != nil {
+			return schema, err
+		}
 		if ttype.Error() != nil {
 			return schema, ttype.Error()
 		}
